@@ -6,7 +6,12 @@ import (
 	"encoding/json"
 	"fmt"
 	"path/filepath"
+	"runtime"
+	"sync"
+	"sync/atomic"
 	"testing"
+
+	"github.com/platinummonkey/go-concurrency-limits/core"
 )
 
 func (s *partSUT) applyRaw(raw json.RawMessage) (any, error) {
@@ -125,5 +130,99 @@ func TestPartitionRandom(t *testing.T) {
 			}
 			w.write(J{"ev": "Op", "trace": tr, "op": op, "res": res, "post": s.obs()})
 		}
+	}
+}
+
+// TestPartitionStress records histories of 2-4 free-running goroutines on real partitioned
+// strategies (TryAcquire with random keys, releases, SetLimit) for the linearisability check of
+// spec/PartitionLin.tla.
+func TestPartitionStress(t *testing.T) {
+	n := envInt("VERIF_N", 60)
+	w := newNdWriter(t, filepath.Join(outDir(t), "partlin_trace.ndjson"))
+	defer w.close()
+	keys := []string{"a", "b", "z"}
+	for k := 0; k < n; k++ {
+		r := newRng(seed(), uint64(k))
+		cfg := partCfg{Kind: []string{"lookup", "predicate"}[k%2], Den: 16, Limit: r.between(1, 4), Objs: map[string]partObjCfg{
+			"p0": {Name: "a", Num: r.intn(9), Match: []string{"a"}, Built: 1},
+			"p1": {Name: "b", Num: r.intn(8), Match: []string{"b", "a"}, Built: 1},
+		}, Init: []string{"p0", "p1"}, Variant: map[string]string{"unknown": "contract", "add": "contract"}}
+		s, err := newPartSUT(cfg)
+		if err != nil {
+			t.Fatal(err)
+		}
+		var mu sync.Mutex
+		var events []J
+		var seq, ids int64
+		begin := func(op J) (int64, func(ok bool)) {
+			id := atomic.AddInt64(&ids, 1)
+			mu.Lock()
+			events = append(events, J{"t": "b", "id": id, "op": op, "seq": atomic.AddInt64(&seq, 1), "ok": true})
+			mu.Unlock()
+			return id, func(ok bool) {
+				mu.Lock()
+				events = append(events, J{"t": "e", "id": id, "op": J{"op": ""}, "ok": ok, "seq": atomic.AddInt64(&seq, 1)})
+				mu.Unlock()
+			}
+		}
+		g := r.between(2, 4)
+		ops := r.between(8, 16)
+		var wg sync.WaitGroup
+		for gi := 0; gi < g; gi++ {
+			gr := newRng(seed()*7919+uint64(k), uint64(gi))
+			wg.Add(1)
+			go func() {
+				defer wg.Done()
+				type held struct {
+					id  int64
+					tok core.StrategyToken
+				}
+				var mine []held
+				for i := 0; i < ops; i++ {
+					if gr.chance(1, 3) {
+						runtime.Gosched()
+					}
+					x := gr.intn(10)
+					switch {
+					case x < 3 && len(mine) > 0:
+						h := mine[len(mine)-1]
+						mine = mine[:len(mine)-1]
+						_, end := begin(J{"op": "rel", "of": h.id})
+						h.tok.Release()
+						end(true)
+					case x == 9:
+						v := gr.between(0, 5)
+						_, end := begin(J{"op": "set", "v": v})
+						s.strat().SetLimit(v)
+						end(true)
+					default:
+						key := gr.pick(keys)
+						id, end := begin(J{"op": "try", "key": key})
+						tok, ok := s.strat().TryAcquire(keyCtx(cfg.Kind, key))
+						end(ok)
+						if ok {
+							mine = append(mine, held{id, tok})
+						}
+					}
+				}
+				for _, h := range mine {
+					_, end := begin(J{"op": "rel", "of": h.id})
+					h.tok.Release()
+					end(true)
+				}
+			}()
+		}
+		wg.Wait()
+		w.write(J{"t": "reset", "trace": k, "cfg": cfg, "id": 0, "op": J{"op": ""}, "ok": true})
+		for _, e := range events {
+			e["trace"] = k
+			w.write(e)
+		}
+		limit, busy := s.totals()
+		ob := J{}
+		for _, id := range s.ids {
+			ob[id] = s.objBusy(id)
+		}
+		w.write(J{"t": "final", "trace": k, "id": 0, "op": J{"op": ""}, "ok": true, "obs": J{"limit": limit, "busy": busy, "ob": ob}})
 	}
 }
